@@ -37,7 +37,7 @@ class ScopeLifeDriver:
             c = cfg[i - 1] if isinstance(cfg, (list, tuple)) else cfg[i]
             en = {"ok": "ok", "fail": "fail", "susp": "suspend"}[c["en"]]
             ex = {"ok": "ok", "fail": "fail", "susp": "suspend"}[c["ex"]]
-            self.disps.append(Disp(w, f"d{i}", yields=[("B", 1)] if i == 1 else [], enter=en, exit=ex,
+            self.disps.append(Disp(w, f"d{i}", yields=[("B", i)], enter=en, exit=ex,
                                    shape="auto" if i % 2 else "list"))
         w.start("1")
         w.do("1", "sscope", 100, [("A", 1)], None)
